@@ -190,7 +190,7 @@ def check_case(ctx, recipe, built, c, geom_kind, geom, buffer, items) -> None:
         truth = {'face_node': recipe['faces'],
                  'edge_node': [list(e) for e in built.extra['edges']],
                  'face_edge': built.extra['face_edges'],
-                 'edge_face': [fs + [None] * (2 - len(fs)) for fs in built.extra['edge_faces']],
+                 'edge_face': built.extra['edge_face_rows'],
                  'face_face': built.extra['face_faces']}
         spec = {'face_node': ('face', 'node', names['face_dim']), 'edge_node': ('edge', 'node', names['edge_dim']),
                 'face_edge': ('face', 'edge', names['face_dim']), 'edge_face': ('edge', 'face', names['edge_dim']),
